@@ -127,8 +127,7 @@ Definition find_edge (G : list edge) (up down : bytes) : option edge :=
 Fixpoint visits (G : list edge) (f : nat) (x : bytes) : list N :=
   match f with
   | O => []
-  | S f' => flat_map (fun e => e_id e :: (if bytes_eqb (e_up e) str_none then [] else visits G f' (e_up e)))
-                     (parents G x)
+  | S f' => flat_map (fun e => e_id e :: visits G f' (e_up e)) (parents G x)
   end.
 
 Definition cnt (x : N) (l : list N) : nat := count_occ N.eq_dec l x.
@@ -144,7 +143,7 @@ Definition update_hash (G : list edge) (id : bytes) (d : N) : list edge :=
 
 (* updateEdgeHash(edge, parent, d): the written edge, then every path upward from its parent *)
 Definition update_edge_hash (G : list edge) (eid : N) (parent : bytes) (d : N) : list edge :=
-  let vs := eid :: (if bytes_eqb parent str_none then [] else visits G (fuel_of G) parent) in
+  let vs := eid :: visits G (fuel_of G) parent in
   map (toggle vs d) G.
 
 (* isUpstream(upID, id): upID is id or reachable from id walking up through any edge *)
@@ -217,8 +216,7 @@ Definition ups (G : list edge) (id : bytes) (include_deleted : bool) : list byte
 Fixpoint pubs (G : list edge) (include_deleted : bool) (f : nat) (x : bytes) : list bytes :=
   x :: match f with
        | O => []
-       | S f' => if bytes_eqb x str_none then []
-                 else flat_map (pubs G include_deleted f') (ups G x include_deleted)
+       | S f' => flat_map (pubs G include_deleted f') (ups G x include_deleted)
        end.
 
 (* ---------- the two write handlers ---------- *)
@@ -325,7 +323,7 @@ Fixpoint closure (vs : list edge_view) (live_only : bool) (f : nat) (todo seen :
       | [] => seen
       | x :: todo' =>
           if mem_bytes x seen then closure vs live_only f' todo' seen
-          else closure vs live_only f' (todo' ++ (if bytes_eqb x str_none then [] else sel_ups vs live_only x)) (x :: seen)
+          else closure vs live_only f' (todo' ++ sel_ups vs live_only x) (x :: seen)
       end
   end.
 Definition ancestors (vs : list edge_view) (live_only : bool) (x : bytes) : list bytes :=
